@@ -102,7 +102,7 @@ func (x *Exec) assumeBoxed(s *State, box string, t types.Type, guard string) {
 		} else if l.K == kRef {
 			s.assume(imp(guard, and(app("<=", "0", ts[i]), app("<", ts[i], s.alloc))))
 		} else if l.K == kInt {
-			s.assume(imp(guard, app("<=", "0", ts[i])))
+			s.assume(imp(guard, and(app("<=", "0", ts[i]), app("<=", ts[i], "9223372036854775807"))))
 		}
 	}
 }
